@@ -15,7 +15,7 @@ theorem validateMinerPayouts_ok {L : Ledger} {b : Block} (h : validateMinerPayou
       have h1 := sumChecked_some he1
       simp only [List.sum_cons] at h1
       simp only [pure, Except.pure, bind, Except.bind] at h
-      unfold Block.fees2 Block.txns2 Block.fees1
+      unfold Block.fees2 Block.v2txns Block.fees1
       split at h
       · rename_i x y txns hv2
         split at h
